@@ -27,7 +27,10 @@ BUDGET = {"quick": 700, "thorough": 12000, "search": 4000}
 TRUSTED = [
     "numpy complex arithmetic (exp(1j·deg2rad φ), @, abs) — modelled with the exact unit phasors "
     "(√3/2, 1/2), (0, −1), (−√3/2, 1/2) and squared magnitudes; differences ≤ 1e-13 relative, compared with 1e-9 slack",
-    "translate_sites.py: AST reading of the limit formulas and dump of the executed factories",
+    "translate_sites.py: dump of the executed factories; the dependence of every limit on the capacity (simple_acn: capacity and "
+    "voltage) arguments is FITTED by probing the factory (1, 8, 1000 kW) and normalised to one canonical rational monomial — the "
+    "generated data are a function of the networks built, not of the spelling of the source; the AST is read only as a hint for "
+    "the driver's floating-point operation order (Gen/SitesSrc.lean, no theorem imports it)",
 ]
 ASSUMPTIONS = [
     "theorems are over an arbitrary linear ordered field with r·r = 3 (√3); the implementation computes in doubles",
@@ -542,7 +545,10 @@ def compare(case, obs, model):
                 break
     if len(mm) != len(obs["mags"]):
         out.append("number of constraint rows differs")
-    exact_edge = case["mode"] in ("edge0", "edge+")
+    # exact-edge decisions are compared exactly when the model evaluates the very doubles of the implementation (it does when
+    # the driver has the source's operation order, Gen/SitesSrc.lean); with limits that differ in the last bits an edge case is
+    # a razor-edge case like any other
+    exact_edge = case["mode"] in ("edge0", "edge+") and len(ml) == len(obs["limits"]) and all(a == b for a, b in zip(obs["limits"], ml))
     if model["feasible"] != obs["feasible"] and (exact_edge or not _razor(obs)):
         out.append(f"is_feasible impl={obs['feasible']} model={model['feasible']}")
     for t, (a, m) in enumerate(zip(obs["feas_t"], model.get("feas_t", []))):
@@ -953,11 +959,16 @@ def _simple_corpus():
     return out
 
 
-def _simple_schedule(case, tol):
-    """the schedule of the case (n × T numpy array) and, for the modes that have one, the expected decision per period"""
+def _simple_schedule(case, tol, lim_impl=None):
+    """the schedule of the case (n × T numpy array) and, for the modes that have one, the expected decision per period.
+    The boundary modes stand 1e-8 (relative) off the DOCUMENTED bound; the exact-edge modes stand exactly ON / one grid step
+    above the bound of the limit the object carries (`lim_impl`; the oracle judges that limit against the documented one
+    separately), so that they test `≤` versus `<` whatever the last bit of the limit is."""
     n, T = len(case["ids"]), case["T"]
     W = np.array(case["w"], dtype=float).reshape(n, T)
     L, B = _simple_bound(case, tol)
+    if case["mode"] in ("edge0", "edge+") and lim_impl is not None:
+        B = lim_impl + max(tol[0], tol[1] * lim_impl)
     mode = case["mode"]
     hot = case.get("hot", 0) % T
     if mode in ("raw", "mixed"):
@@ -1032,7 +1043,7 @@ def _simple_run(case):
         "levels": [sorted({float(x) for x in a}) for a in net.allowable_rates],
         "net_class": type(net).__name__, "net_class_ok": type(net) is want_cls,
     }
-    S, expected = _simple_schedule(case, obs["tol"] if tol is not None else list(DEFAULT_TOL))
+    S, expected = _simple_schedule(case, obs["tol"], obs["limits"][0] if len(obs["limits"]) == 1 else None)
     if S is None:
         obs["skip"] = "no exact edge"
         return obs
@@ -1069,8 +1080,8 @@ def _simple_razor(case, obs, t=None):
 
 def _simple_compare(case, obs, model):
     out = []
-    if not model.get("body_shape_ok", False):
-        out.append("model: the regenerated body of simple_acn no longer has the documented shape (one registration per id, one constraint over all ids)")
+    if not model.get("limit_fitted", False):
+        out.append("model: the limit of the networks simple_acn builds is not a monomial n/d · cap^±1 · voltage^±1 (Gen/SimpleAcn.lean: limitMono = none)")
     if case["mode"] == "zero_voltage":
         if (obs.get("err") == "ZeroDivisionError") != (model.get("err") == "ZeroDivisionError"):
             out.append(f"voltage 0: impl err={obs.get('err')} model err={model.get('err')}")
@@ -1094,7 +1105,7 @@ def _simple_compare(case, obs, model):
         out.append(f"error class: impl={obs.get('err')} model={model.get('err')}")
     if obs.get("err") is not None or model.get("err") is not None:
         return out
-    exact = case["mode"] in ("edge0", "edge+")
+    exact = case["mode"] in ("edge0", "edge+") and [b2f(x) for x in model.get("limits", [])] == obs["limits"]
     if model["feasible"] != obs["feasible"] and (exact or not _simple_razor(case, obs)):
         out.append(f"is_feasible impl={obs['feasible']} model={model['feasible']}")
     for t, (a, m) in enumerate(zip(obs["feas_t"], model.get("feas_t", []))):
